@@ -22,21 +22,23 @@ func init() {
 		"(controller-runtime client, Scheme, logr, EventRecorder, Prometheus vectors, the apimachinery equality table, flowcontrol.Backoff); for flowcontrol.Backoff each method used is shown from its SSA to take the object's RWMutex before touching it and its Clock field is shown to be assigned only at construction; "+
 		"(R3) every API write issued inside a goroutine of the replica-set reconciler has its error collected on every path where it is non-nil (channel send or store into a captured slice), "+
 		"the spawning helper returns exactly the collected errors (exhaustive range over the channel, or the captured slice), and in every caller the returned errors reach, on every path, "+
-		"the ReconcileError condition writer, a PodsCleanupDone=False condition write, or a returned error that is followed further up to the replica-set Reconcile.", runC17)
+		"the ReconcileError condition writer, a PodsCleanupDone=False condition write, or a returned error that is followed further up to the replica-set Reconcile; "+
+		"and the status object such a condition is written on is, by provenance, the one that is persisted: the very value handed to the function doing Status().Update, or the NewStatus of (or the value stored into the NewStatus of) the *Result the planner returns, followed through the dispatcher to the Reconcile, which hands that NewStatus to the status update on every path.", runC17)
 }
 
 func runC17(r *Run) {
 	r.RuleDoc("C17.R1", "variables shared with goroutines are written only under a common shared mutex, at the per-instance index, or behind a WaitGroup barrier")
 	r.RuleDoc("C17.R2", "reconcile-reachable code writes no package variable / reconciler field; shared objects are used only through internally synchronised types (Backoff methods lock first)")
-	r.RuleDoc("C17.R3", "errors of API writes issued in goroutines are collected, returned by the helper and reach ReconcileError / PodsCleanupDone / a returned error in every caller")
+	r.RuleDoc("C17.R3", "errors of API writes issued in goroutines are collected, returned by the helper and reach ReconcileError / PodsCleanupDone / a returned error in every caller; the condition is written on the status object that is persisted")
 	r.Floor("C17.R1", 6)
 	r.Floor("C17.R2", 20)
-	r.Floor("C17.R3", 8)
+	r.Floor("C17.R3", 11)
 	r.NotCovered("races inside client libraries, the fake client or any function outside the repository (they are assumed not to write through the pointers they receive); " +
 		"dynamic schedules, deadlocks, sends on a closed or full channel; happens-before through channels (only WaitGroup barriers and mutexes are recognised, anything else is reported); " +
 		"that the ReconcileError/PodsCleanupDone condition written to the in-memory status is finally persisted (C09/C14); the clean-up error returned by cleanupPods to ManageDeployment is not required to be returned further (PodsCleanupDone reflects it)")
 
 	c17CondWriterMemo = map[string]bool{}
+	c17StatusSinks = nil
 	c17GoOf = map[*ssa.Function]*ssa.Go{}
 	ws := newWriteSummary(r.Prog)
 	c17Race(r, ws)
@@ -1020,6 +1022,7 @@ func c17ErrSink(r *Run) {
 			}
 		}
 	}
+	c17StatusPersisted(r, ers, reach)
 }
 
 func c17ErrResultIndex(fn *ssa.Function) int {
@@ -1499,6 +1502,7 @@ func c17CallerSinks(r *Run, call *ssa.Call, src ssa.Value, helper *ssa.Function,
 					for j, a := range x.Call.Args {
 						if c17IsErrType(a.Type()) && callee != nil && c17ConditionWriter(r, callee, j) && derivesFromSrc(p, a) {
 							sunk = true
+							c17NoteStatusSink(x, "ReconcileError")
 						}
 					}
 					// PodsCleanupDone written False
@@ -1515,6 +1519,7 @@ func c17CallerSinks(r *Run, call *ssa.Call, src ssa.Value, helper *ssa.Function,
 					if hasType && status != nil {
 						if s, isC := constString(p.Resolve(status)); isC && s == "False" {
 							sunk = true
+							c17NoteStatusSink(x, "PodsCleanupDone")
 						}
 					}
 				case *ssa.Return:
@@ -1619,4 +1624,320 @@ func c17LoopBoundedBy(helper *ssa.Function, i int) bool {
 		}
 	}
 	return n > 0
+}
+
+// ---------------------------------------------------------------------------------------------
+// R3, last link: the status object a condition sink writes to is the one that is persisted
+
+type c17StatusSink struct {
+	call *ssa.Call
+	kind string
+}
+
+var c17StatusSinks []c17StatusSink
+
+func c17NoteStatusSink(c *ssa.Call, kind string) {
+	for _, s := range c17StatusSinks {
+		if s.call == c {
+			return
+		}
+	}
+	c17StatusSinks = append(c17StatusSinks, c17StatusSink{c, kind})
+}
+
+func c17IsStatusPtr(t types.Type) bool {
+	return isPtrToNamed(t, pkgAPI, "ExtendedDaemonSetReplicaSetStatus")
+}
+
+// c17Persisters finds the functions that persist a status handed to them: a Status().Update of an
+// object whose Status field is assigned from *param.
+func c17Persisters(r *Run, reach map[*ssa.Function]bool) map[*ssa.Function]int {
+	out := map[*ssa.Function]int{}
+	for _, e := range effectsOf(reach) {
+		if e.Verb != "Update" || !e.Status {
+			continue
+		}
+		fn := e.Fn
+		var objRoots []ssa.Value
+		for _, c := range dChains(e.Obj, true) {
+			objRoots = append(objRoots, c.Root)
+		}
+		for _, b := range fn.Blocks {
+			for _, in := range b.Instrs {
+				st, ok := in.(*ssa.Store)
+				if !ok {
+					continue
+				}
+				fa, ok := st.Addr.(*ssa.FieldAddr)
+				if !ok || fieldName(fa) != "Status" {
+					continue
+				}
+				isObj := false
+				for _, c := range dChains(fa.X, true) {
+					for _, o := range objRoots {
+						if c.Root == o {
+							isObj = true
+						}
+					}
+				}
+				if !isObj {
+					continue
+				}
+				ld, ok := st.Val.(*ssa.UnOp)
+				if !ok || ld.Op != token.MUL {
+					continue
+				}
+				if p, ok := ld.X.(*ssa.Parameter); ok && c17IsStatusPtr(p.Type()) {
+					out[fn] = paramIndex(p)
+				}
+			}
+		}
+	}
+	return out
+}
+
+type c17Persist struct {
+	r          *Run
+	ers        *ssa.Function
+	reach      map[*ssa.Function]bool
+	persisters map[*ssa.Function]int
+}
+
+// sameObject: two values denote the same status object — the same SSA value, or loads of the same
+// field path of the same root with no store to that path in the function.
+func c17SameObject(fn *ssa.Function, a, b ssa.Value) bool {
+	if unwrap(a) == unwrap(b) {
+		return true
+	}
+	ra, pa := accessPath(a)
+	rb, pb := accessPath(b)
+	if ra != rb || len(pa) == 0 || !c16PathEq(pa, pb) {
+		return false
+	}
+	_, la := unwrap(a).(*ssa.UnOp)
+	_, lb := unwrap(b).(*ssa.UnOp)
+	if !la || !lb {
+		return false
+	}
+	// every store to the path precedes both loads
+	for _, blk := range fn.Blocks {
+		for _, in := range blk.Instrs {
+			if st, ok := in.(*ssa.Store); ok {
+				r2, p2 := accessPath(st.Addr)
+				if r2 == ra && len(p2) > 0 && c16HasPrefix(pa, p2) {
+					if !dDominatesInstr(st, unwrap(a).(ssa.Instruction)) || !dDominatesInstr(st, unwrap(b).(ssa.Instruction)) {
+						return false
+					}
+				}
+			}
+		}
+	}
+	return true
+}
+
+// statusPersisted: the status object v, used at site in fn, is the one handed to Status().Update.
+func (cp *c17Persist) statusPersisted(fn *ssa.Function, site ssa.Instruction, v ssa.Value, depth int) (bool, string) {
+	if depth > 6 {
+		return false, "provenance deeper than 6 calls"
+	}
+	sf := shortFunc(fn)
+	// (a) handed to a persister later on every path to a return
+	var persistCalls []*ssa.Call
+	for _, ci := range callsIn(fn) {
+		c, ok := ci.(*ssa.Call)
+		if !ok {
+			continue
+		}
+		if q, isP := cp.persisters[staticCallee(&c.Call)]; isP && q < len(c.Call.Args) && c17SameObject(fn, c.Call.Args[q], v) {
+			persistCalls = append(persistCalls, c)
+		}
+	}
+	if len(persistCalls) > 0 {
+		for _, rt := range dNormalReturns(fn) {
+			if !(site.Block() == rt.Block() || dReaches(site.Block(), rt.Block())) {
+				continue
+			}
+			covered := false
+			for _, c := range persistCalls {
+				if dDominatesInstr(c, rt) && (dDominatesInstr(site, c) || site == ssa.Instruction(c)) {
+					covered = true
+				}
+			}
+			if !covered {
+				return false, "the status is handed to the status update in " + sf + ", but not on every path after the condition is written"
+			}
+		}
+		return true, "handed to the status update in " + sf
+	}
+	root, path := accessPath(v)
+	// (b) the caller's status: follow the parameter to every call site
+	if p, isP := root.(*ssa.Parameter); isP && len(path) == 0 && p.Parent() == fn {
+		sites := callSitesOf(fn, cp.reach)
+		if len(sites) == 0 {
+			return false, "no caller of " + sf
+		}
+		why := ""
+		for _, cs := range sites {
+			ok, w := cp.statusPersisted(cs.Parent(), cs, cs.Common().Args[paramIndex(p)], depth+1)
+			if !ok {
+				return false, w + " ← " + sf
+			}
+			why = w
+		}
+		return true, why + " ← " + sf
+	}
+	// (c) the NewStatus of the Result this function returns (or the very value stored into it)
+	resultOf := func(x ssa.Value) ssa.Value {
+		r2, p2 := accessPath(x)
+		if len(p2) == 1 && p2[0] == "NewStatus" && isPtrToNamed(r2.Type(), pkgStrategy, "Result") {
+			return r2
+		}
+		return nil
+	}
+	res := resultOf(v)
+	if res == nil {
+		// the same value that is stored into some Result.NewStatus
+		for _, b := range fn.Blocks {
+			for _, in := range b.Instrs {
+				if st, ok := in.(*ssa.Store); ok && unwrap(st.Val) == unwrap(v) {
+					if r2 := resultOf(st.Addr); r2 != nil {
+						res = r2
+					}
+				}
+			}
+		}
+	}
+	if res == nil {
+		return false, fmt.Sprintf("the condition is written on %s in %s, which is neither the NewStatus of the returned Result nor handed to the status update", pathString(v), sf)
+	}
+	// later reassignment of res.NewStatus would detach the written object
+	for _, b := range fn.Blocks {
+		for _, in := range b.Instrs {
+			if st, ok := in.(*ssa.Store); ok && resultOf(st.Addr) == res {
+				if (site.Block() == st.Block() && dInstrIndex(site) < dInstrIndex(st)) || (site.Block() != st.Block() && dReaches(site.Block(), st.Block())) {
+					if unwrap(st.Val) != unwrap(v) {
+						return false, "Result.NewStatus is reassigned in " + sf + " after the condition was written"
+					}
+				}
+			}
+		}
+	}
+	return cp.resultPersisted(fn, res, depth+1)
+}
+
+// resultPersisted: the *Result value res of fn has its NewStatus persisted — fn returns it and every
+// caller persists the NewStatus of what it gets, or fn is the Reconcile and does so itself.
+func (cp *c17Persist) resultPersisted(fn *ssa.Function, res ssa.Value, depth int) (bool, string) {
+	sf := shortFunc(fn)
+	if depth > 6 {
+		return false, "provenance deeper than 6 calls"
+	}
+	if fn == cp.ers {
+		// the NewStatus of res is what the persister receives
+		for _, ci := range callsIn(fn) {
+			c, ok := ci.(*ssa.Call)
+			if !ok {
+				continue
+			}
+			q, isP := cp.persisters[staticCallee(&c.Call)]
+			if !isP || q >= len(c.Call.Args) {
+				continue
+			}
+			r2, p2 := accessPath(c.Call.Args[q])
+			if r2 != res || len(p2) != 1 || p2[0] != "NewStatus" {
+				continue
+			}
+			all := true
+			resIns, _ := res.(ssa.Instruction)
+			for _, rt := range dNormalReturns(fn) {
+				if resIns != nil && dDominatesInstr(resIns, rt) && !dDominatesInstr(c, rt) {
+					all = false
+				}
+			}
+			if all {
+				return true, "its NewStatus is handed to the status update in " + sf
+			}
+		}
+		return false, "the NewStatus of the strategy result is not what " + sf + " hands to the status update"
+	}
+	returned := false
+	for _, rt := range dNormalReturns(fn) {
+		if len(rt.Results) == 0 {
+			continue
+		}
+		if anyOrigin(rt.Results[0], func(x ssa.Value) bool { return unwrap(x) == unwrap(res) }) || unwrap(rt.Results[0]) == unwrap(res) {
+			returned = true
+		}
+	}
+	if !returned {
+		return false, "the Result whose NewStatus carries the condition is not the one " + sf + " returns"
+	}
+	sites := callSitesOf(fn, cp.reach)
+	if len(sites) == 0 {
+		return false, "no caller of " + sf
+	}
+	why := ""
+	for _, cs := range sites {
+		call, ok := cs.(*ssa.Call)
+		if !ok {
+			return false, sf + " is started with go/defer"
+		}
+		var got ssa.Value = call
+		if fn.Signature.Results().Len() > 1 {
+			got = nil
+			for _, rf := range refs(call) {
+				if ex, ok := rf.(*ssa.Extract); ok && ex.Index == 0 {
+					got = ex
+				}
+			}
+			if got == nil {
+				return false, "the Result of " + sf + " is dropped in " + shortFunc(call.Parent())
+			}
+		}
+		ok2, w := cp.resultPersisted(call.Parent(), got, depth+1)
+		if !ok2 {
+			return false, w + " ← " + sf
+		}
+		why = w
+	}
+	return true, why + " ← " + sf
+}
+
+func c17StatusPersisted(r *Run, ers *ssa.Function, reach map[*ssa.Function]bool) {
+	cp := &c17Persist{r: r, ers: ers, reach: reach, persisters: c17Persisters(r, reach)}
+	if len(cp.persisters) == 0 {
+		r.Check("C17.R3", "status persister", r.Prog.Pos(ers.Pos()), shortFunc(ers), "a function writing the computed status with Status().Update is reachable from the Reconcile", false, "none found")
+		return
+	}
+	sort.Slice(c17StatusSinks, func(i, j int) bool { return c17StatusSinks[i].call.Pos() < c17StatusSinks[j].call.Pos() })
+	for _, s := range c17StatusSinks {
+		fn := s.call.Parent()
+		var obj ssa.Value
+		for _, a := range s.call.Call.Args {
+			if c17IsStatusPtr(a.Type()) {
+				obj = a
+			}
+		}
+		pos := r.Prog.Pos(s.call.Pos())
+		construct := s.kind + " written on the persisted status"
+		if obj == nil {
+			r.Undecided("C17.R3", construct, pos, shortFunc(fn), "the condition writer receives no *ExtendedDaemonSetReplicaSetStatus")
+			continue
+		}
+		need := "the status object on which the " + s.kind + " condition is written is the one that reaches Status().Update (the planner's returned Result.NewStatus, or the status the Reconcile updates)"
+		// a helper writing on its caller's status: one obligation per caller
+		if p, isP := unwrap(obj).(*ssa.Parameter); isP && p.Parent() == fn {
+			sites := callSitesOf(fn, reach)
+			if len(sites) == 0 {
+				r.Check("C17.R3", construct, pos, shortFunc(fn), need, false, "no caller of "+shortFunc(fn))
+			}
+			for _, cs := range sites {
+				ok, why := cp.statusPersisted(cs.Parent(), cs, cs.Common().Args[paramIndex(p)], 1)
+				r.Check("C17.R3", construct+" (via "+shortFunc(fn)+")", r.Prog.Pos(cs.Pos()), shortFunc(cs.Parent()), need, ok, why)
+			}
+			continue
+		}
+		ok, why := cp.statusPersisted(fn, s.call, obj, 0)
+		r.Check("C17.R3", construct, pos, shortFunc(fn), need, ok, why)
+	}
 }
